@@ -8,7 +8,11 @@ Generates lean/FairModel/Generated/ValidationTables.lean from
   fairlearn/reductions/_moments/error_rate.py        ErrorRate.__init__ (costs)
   fairlearn/reductions/_grid_search/grid_search.py   GridSearch.__init__ (constraint_weight, selection rule)
 
-A function body is read as a tiny language: `if/elif/else`, `raise`, assignments (ignored), nothing else.
+A function body is read as a tiny language: `if/elif/else`, `raise`, assignments, nothing else.  An assignment is
+ignored unless it binds something a LATER condition reads (a name, attribute or subscript that occurs in one of the
+context's atoms / variables, e.g. `self.estimator = ..`, `costs = dict(..)`, `kwargs = {}`, `ratio_bound = abs(ratio_bound)`
+placed before the guard that reads it): then the condition no longer talks about the argument the model's descriptor
+describes, and the function is REFUSED.  The pinned definitions of locals an atom reads (`Ctx.defs`) are followed.
 It becomes a Lean `Bool` expression: `true` = the statements complete without raising.  Conditions may use
 and/or/not, chained numeric comparisons, `x is (not) None`, membership in the lifted tables and a fixed list of
 named atoms per function.  Anything else raises `Untranslatable`."""
@@ -104,6 +108,55 @@ class Ctx:
         self.strvars = strvars or {}    # python text -> Lean String variable
         self.tables = tables or {}      # python name -> Lean List String
         self.atoms = atoms or {}        # python text -> Lean Bool expression
+        self.rebound = {}               # access path -> (statement that re-assigned it, is that statement in `followed`)
+        self.defs = set()               # statement texts: the pinned definitions of locals the atoms read (followed)
+        self.followed = set()           # statement texts: re-assignments a later DEFINITION (not a condition) may read through
+        self.extra_reads = set()        # names read by something lifted from the same body outside `stmts` (e.g. the eps chain)
+
+    # -- re-assignment of what the conditions read
+    @staticmethod
+    def paths(node_or_text):
+        """the names / attribute chains / subscripts an expression reads, as text"""
+        node = node_or_text
+        if isinstance(node, str):
+            try:
+                node = ast.parse(node, mode="eval")
+            except SyntaxError:
+                return set()
+        return {ast.unparse(n) for n in ast.walk(node) if isinstance(n, (ast.Name, ast.Attribute, ast.Subscript))}
+
+    def read_paths(self):
+        out = set(self.extra_reads)
+        for d in (self.optvars, self.numvars, self.strvars, self.atoms, self.tables):
+            for k in d:
+                out |= self.paths(k)
+        return out
+
+    def use(self, key, node, from_def=False):
+        """a condition (or a followed definition) reads `key`: nothing it mentions may have been re-assigned before"""
+        for p in sorted(self.paths(key)):
+            if p in self.rebound and not (from_def and self.rebound[p][1]):
+                self.bad(node, f"reads `{p}` after it was re-assigned by `{self.rebound[p][0][:70]}` "
+                               "(the condition no longer describes the caller's argument)")
+
+    def note_assign(self, s):
+        if isinstance(s, ast.AnnAssign) and s.value is None:
+            return
+        targets = s.targets if isinstance(s, ast.Assign) else [s.target]
+        flat = []
+        for t in targets:
+            flat += [n for n in ast.walk(t) if isinstance(n, (ast.Name, ast.Attribute, ast.Subscript))
+                     and isinstance(getattr(n, "ctx", None), ast.Store)]
+        txt = ast.unparse(s)
+        read = self.read_paths()
+        for t in flat:
+            p = ast.unparse(t)
+            if p not in read:
+                continue
+            if txt in self.defs:
+                self.use(s.value, s, from_def=True)
+                continue
+            self.rebound[p] = (txt, txt in self.followed)
 
     def bad(self, node, why):
         raise Untranslatable(f"{self.name}: {why}: `{ast.unparse(node)}`")
@@ -112,6 +165,7 @@ class Ctx:
     def num(self, e):
         t = ast.unparse(e)
         if t in self.numvars:
+            self.use(t, e)
             return self.numvars[t]
         if isinstance(e, ast.Constant) and isinstance(e.value, (int, float)) and not isinstance(e.value, bool):
             q = Fraction(str(e.value))
@@ -128,12 +182,14 @@ class Ctx:
     def cond(self, e):
         t = ast.unparse(e)
         if t in self.atoms:
+            self.use(t, e)
             return ("atom", self.atoms[t], self.atoms[t], False)
         if isinstance(e, ast.Compare) and len(e.ops) == 1 and isinstance(e.ops[0], (ast.Eq, ast.NotEq)):
             # a named `a == b` atom written `b == a`, `a != b` or `b != a`
             lt, rt = ast.unparse(e.left), ast.unparse(e.comparators[0])
             for cand in (f"{lt} == {rt}", f"{rt} == {lt}"):
                 if cand in self.atoms:
+                    self.use(cand, e)
                     a = ("atom", self.atoms[cand], self.atoms[cand], False)
                     return a if isinstance(e.ops[0], ast.Eq) else ("not", a)
         if isinstance(e, ast.BoolOp):
@@ -153,17 +209,21 @@ class Ctx:
         if isinstance(op, (ast.Is, ast.IsNot)):
             if not (isinstance(right, ast.Constant) and right.value is None) or lt not in self.optvars:
                 self.bad(whole, "`is` only against None on a known optional")
+            self.use(lt, whole)
             a = ("atom", self.optvars[lt], self.optvars[lt], False)
             return a if isinstance(op, ast.IsNot) else ("not", a)
         if isinstance(op, (ast.In, ast.NotIn)):
             if lt not in self.strvars or rt not in self.tables:
                 self.bad(whole, "membership only of a known string in a lifted table")
+            self.use(lt, whole)
+            self.use(rt, whole)
             r = f"({self.tables[rt]}.contains {self.strvars[lt]})"
             a = ("atom", r, r, False)
             return a if isinstance(op, ast.In) else ("not", a)
         if isinstance(op, (ast.Eq, ast.NotEq)) and rt in self.strvars and isinstance(left, ast.Constant) and isinstance(left.value, str):
             left, right, lt, rt = right, left, rt, lt       # `"lit" == s`
         if isinstance(op, (ast.Eq, ast.NotEq)) and lt in self.strvars and isinstance(right, ast.Constant) and isinstance(right.value, str):
+            self.use(lt, whole)
             r = f"({self.strvars[lt]} == {lstr(right.value)})"
             a = ("atom", r, r, False)
             return a if isinstance(op, ast.Eq) else ("not", a)
@@ -194,8 +254,11 @@ class Ctx:
         if isinstance(s, ast.Expr) and isinstance(s.value, ast.Call) and ast.unparse(s.value).startswith(("super(", "logger.")):
             return self.stmts(rest, stop)
         if isinstance(s, (ast.Assign, ast.AnnAssign, ast.Pass)):
+            if not isinstance(s, ast.Pass):
+                self.note_assign(s)
             return self.stmts(rest, stop)
         if isinstance(s, ast.If):
+            test = self.cond(s.test)          # evaluated first (execution order matters for `rebound`)
             a, b = self.stmts(s.body, stop), self.stmts(s.orelse, stop)
             r = self.stmts(rest, stop)
 
@@ -205,7 +268,7 @@ class Ctx:
                 a = r if a == TRUE else (FALSE if a == FALSE else ("and", [a, r]))
             if not ends_in_return(s.orelse):
                 b = r if b == TRUE else (FALSE if b == FALSE else ("and", [b, r]))
-            return ("ite", self.cond(s.test), a, b)
+            return ("ite", test, a, b)
         self.bad(s, "statement kind")
 
 
@@ -289,7 +352,8 @@ PINNED_LOCALS_TO = {"ThresholdOptimizer.predict": [], "ThresholdOptimizer._pmf_p
 
 def _pinned(ctx, key, expr=False, atoms=None):
     """the Bool term of the pinned spelling under the same context (None if the context no longer understands it)"""
-    saved = ctx.atoms
+    saved, saved_rebound = ctx.atoms, ctx.rebound
+    ctx.rebound = {}
     try:
         if atoms is not None:
             ctx.atoms = atoms
@@ -300,7 +364,7 @@ def _pinned(ctx, key, expr=False, atoms=None):
     except Untranslatable:
         return None
     finally:
-        ctx.atoms = saved
+        ctx.atoms, ctx.rebound = saved, saved_rebound
 
 
 def _parse(repo, rel):
@@ -423,6 +487,8 @@ def _frame_function_checks(repo):
               atoms={"isinstance(sample_params, dict)": "sample_params_is_dict", "isinstance(metric, dict)": "metric_is_dict",
                      "sample_params_keys.issubset(metric_functions_keys)": "keys_subset"})
     ctx.allow_return = True
+    ctx.defs = {"sample_params_keys = set(sample_params.keys())", "metric_functions_keys = set(metric.keys())"}
+    ctx.followed = {"sample_params = sample_params or {}"}      # None -> {}: read by the definition of sample_params_keys only
     loops = [st for st in fn.body if isinstance(st, ast.For)]
     if len(loops) != 1 or ast.unparse(loops[0].iter) != "metric.items()":
         raise Untranslatable("_get_annotated_metric_functions: expected one loop over metric.items()")
@@ -545,6 +611,19 @@ def validation_tables(repo):
     if len(guard) != 1 or guard[0].orelse or not isinstance(guard[0].body[-1], ast.Raise) or any(
             not (isinstance(x, ast.Assign) and all(isinstance(t, ast.Name) for t in x.targets)) for x in guard[0].body[:-1]):
         raise Untranslatable("_calculate_tradeoff_points: degenerate-label guard not of the shape `if <cond>: raise`")
+    # the counts the guard reads are bound exactly once before it, by unpacking `_get_scores_labels_and_counts(data)`
+    guard_names = {n.id for n in ast.walk(guard[0].test) if isinstance(n, ast.Name)}
+    for st in ctp.body[:ctp.body.index(guard[0])]:
+        for n in ast.walk(st):
+            if isinstance(n, ast.Name) and isinstance(n.ctx, (ast.Store, ast.Del)) and n.id in guard_names:
+                if not (isinstance(st, ast.Assign) and isinstance(st.value, ast.Call)
+                        and ast.unparse(st.value.func) == "_get_scores_labels_and_counts" and len(st.targets) == 1
+                        and isinstance(st.targets[0], ast.Tuple) and any(t is n for t in st.targets[0].elts)):
+                    raise Untranslatable(f"_calculate_tradeoff_points: `{n.id}` is (re-)assigned before the degenerate-label guard by "
+                                         f"`{ast.unparse(st)[:80]}`")
+    if sum(1 for st in ctp.body[:ctp.body.index(guard[0])] for n in ast.walk(st)
+           if isinstance(n, ast.Call) and ast.unparse(n.func) == "_get_scores_labels_and_counts") != 1:
+        raise Untranslatable("_calculate_tradeoff_points: the counts are not read once from _get_scores_labels_and_counts before the guard")
     dctx = Ctx("_calculate_tradeoff_points", numvars={"n_positive": "(n_positive : Rat)", "n_negative": "(n_negative : Rat)"})
     degenerate = prefer(dctx.cond(guard[0].test), _pinned(dctx, "degenerate", expr=True))
 
@@ -552,6 +631,7 @@ def validation_tables(repo):
     pctx = Ctx("UtilityParity.__init__",
                optvars={"difference_bound": "difference_bound_given", "ratio_bound": "ratio_bound_given"},
                numvars={"ratio_bound": "ratio_bound"})
+    pctx.extra_reads = {"difference_bound", "ratio_bound_slack", "_DEFAULT_DIFFERENCE_BOUND"}     # read by the eps chain below
     pbody = list(_method(up, "UtilityParity", "__init__").body)
     # optional trailing slack guard: exactly `if self.eps < 0: raise ValueError(..)` after the if/elif chain
     slack_guard = False
@@ -575,6 +655,8 @@ def validation_tables(repo):
                 numvars={"difference_bound": "difference_bound", "ratio_bound_slack": "ratio_bound_slack",
                          "_DEFAULT_DIFFERENCE_BOUND": None})
     ectx0.numvars["_DEFAULT_DIFFERENCE_BOUND"] = ectx0.num(dflt)
+    ectx0.rebound = pctx.rebound        # a bound re-assigned anywhere in the body is not the caller's bound any more
+    ectx_tests = Ctx("UtilityParity.__init__/eps", optvars=ectx0.optvars)    # the chain's tests were checked by pctx.stmts above
     chains = [st for st in pbody if isinstance(st, ast.If)]
     if len(chains) != 1:
         raise Untranslatable("UtilityParity.__init__: expected exactly one if/elif chain")
@@ -602,7 +684,7 @@ def validation_tables(repo):
                 rest = "(0 : Rat)"
             else:
                 raise Untranslatable("UtilityParity.__init__: else branch neither assigns self.eps nor raises")
-        return f"(if {text(ectx0.cond(node.test))} then {here} else {rest})"
+        return f"(if {text(ectx_tests.cond(node.test))} then {here} else {rest})"
     parity_eps = eps_of(chains[0])
 
     # ErrorRate.__init__
